@@ -297,6 +297,33 @@ class VAsyncResult:
         return [self.res[k] for k in range(len(self.tids))]
 
 
+class VIMapIterator:
+    """What Pool.imap_unordered returns: an iterator that also offers next(timeout). A timed wait is an environment
+    choice: by default the result arrives in time; the deviation is that the timeout lands first (at most MAX_TIMEOUTS
+    times per pool use, so that retry loops stay finite)."""
+
+    MAX_TIMEOUTS = 2
+
+    def __init__(self, gen, sched, seq):
+        self._gen, self._s, self._seq, self._timeouts = gen, sched, seq, 0
+
+    def __iter__(self):
+        return self
+
+    def __next__(self):
+        return next(self._gen)
+
+    def next(self, timeout=None):
+        s = self._s
+        if timeout is not None and self._timeouts < self.MAX_TIMEOUTS and (s.focus is None or s.focus == self._seq):
+            if s.choose(f"pool{self._seq}-timeout", 2, ["in-time", "timeout"]) == 1:
+                self._timeouts += 1
+                import multiprocessing
+
+                raise multiprocessing.TimeoutError()
+        return next(self._gen)
+
+
 class VPool:
     def __init__(self, processes=None, *a, **k):
         self.n = processes or 1
@@ -340,7 +367,11 @@ class VPool:
         return VAsyncResult(tids, res, errs, order)
 
     # ---- order mode
-    def imap_unordered(self, func, iterable):
+    def imap_unordered(self, func, iterable, chunksize=1):
+        s = _sched()
+        return VIMapIterator(self._imap_unordered(func, iterable), s, s.pool_seq)
+
+    def _imap_unordered(self, func, iterable):
         s = _sched()
         seq = s.pool_seq
         s.pool_seq += 1
